@@ -17,7 +17,10 @@
     C05_continue_complete / C05_not_recorded (DB content after B read back through the backend API) evaluated by the
     driver on run B's trace, cross-checked by Python reference monitors; plus the Python predicate C05_reexecuted on
     run C (a task with a failure report in B is never `skip_uptodate` in C unless it is stateless, and executes when
-    nothing fails in C).
+    nothing fails in C).  "A task that fails" is also read as what its action DID (the harness wrote the action: a
+    python-action returning False / raising, a cmd-action exiting non-zero or killed by a signal): if such a task was
+    executed and NOT reported as a failure (C05_failure_recognised), all the statements are evaluated again on the
+    ground-truth trace (C05_truth_*: its dependents must not start, no record, executes again).
 """
 import json
 import os
@@ -39,7 +42,7 @@ META = {
     'lean_props': ['DoitModel.Props.C05'],
     'level': 'proof',
     'budget': {'quick': 40, 'thorough': 480},
-    'anchors': ['doit/runner.py::Runner._handle_task_error', 'doit/runner.py::Runner.select_task',
+    'anchors': ['doit/action.py::CmdAction.execute', 'doit/runner.py::Runner._handle_task_error', 'doit/runner.py::Runner.select_task',
                 'doit/runner.py::Runner.process_task_result', 'doit/runner.py::Runner.run_tasks',
                 'doit/runner.py::Runner.execute_task', 'doit/runner.py::MRunner.get_next_job',
                 'doit/runner.py::MRunner.run_tasks', 'doit/runner.py::MRunner._process_result',
@@ -83,7 +86,7 @@ META = {
                   'pass), is fully processed, and that its nTasks-round fixed-point iterations are complete.',
     'rule': 'runlib DAG generator (3-8 tasks, all edge kinds, groups, shared deps, calc deliveries, up-to-date and '
             'ignored tasks) with failure-heavy oracle: outcome failed/error/saveerr x how return/raise/object, status '
-            'error (missing file_dep); backend json|dbm|sqlite3; warm-up run or not; runner serial | thread k=1..4 x '
+            'error (missing file_dep), cmd-action placements (exit status 1/2/126/127/200, death by SIGKILL/SIGTERM/SIGSEGV, list and shell form); backend json|dbm|sqlite3; warm-up run or not; runner serial | thread k=1..4 x '
             'schedule policy | process k=2,3; non-trivial = at least one failure report and one dependency edge; '
             'distinct = distinct rendered case + backend + warm + schedule',
     'assumptions': ['actions touch only their own targets (granularity assumption of M1 for thread mode)',
@@ -99,7 +102,10 @@ META = {
 SIGNATURES = {}
 
 LEAN_KEYS = ['C05_no_dependent_runs', 'C05_serial_stops', 'C05_continue_complete', 'C05_not_recorded']
-ALL_KEYS = LEAN_KEYS + ['C05_reexecuted']
+# the same statements with "fails" read as what the task's action DID (known to the harness: it wrote the action), not
+# as what doit reported: evaluated only when an executed task with a failing action was not reported as a failure
+TRUTH_LEAN_KEYS = ['C05_truth_no_dependent_runs', 'C05_truth_serial_stops', 'C05_truth_not_recorded']
+ALL_KEYS = LEAN_KEYS + ['C05_reexecuted', 'C05_failure_recognised'] + TRUTH_LEAN_KEYS + ['C05_truth_reexecuted']
 BACKENDS = ('json', 'dbm', 'sqlite3')
 FIXED_MTIME = 1500000000
 
@@ -110,6 +116,34 @@ FIXED_MTIME = 1500000000
 
 def fsname(name):
     return name.replace(':', '_')
+
+
+# failure placements realised by a cmd-action (CmdAction.execute: returncode > 125 -> TaskError, any other non-zero
+# returncode -- including the NEGATIVE one of a child killed by a signal -- -> TaskFailed)
+CMD_HOWS = {'failed': ['cmd:1:shell', 'cmd:1:list', 'cmd:2:shell', 'cmd:2:list',
+                       'sig:KILL:list', 'sig:KILL:shell', 'sig:TERM:list', 'sig:TERM:shell',
+                       'sig:SEGV:list', 'sig:SEGV:shell'],
+            'error': ['cmd:126:shell', 'cmd:126:list', 'cmd:127:shell', 'cmd:127:list', 'cmd:200:shell', 'cmd:200:list']}
+SIGNUM = {'KILL': 9, 'TERM': 15, 'SEGV': 11}
+
+
+def is_cmd_how(how):
+    return isinstance(how, str) and (how.startswith('cmd:') or how.startswith('sig:'))
+
+
+def cmd_outcome(how):
+    """the oracle outcome a cmd placement produces"""
+    kind, arg, _form = how.split(':')
+    if kind == 'sig':
+        return 'failed'
+    return 'error' if int(arg) > 125 else 'failed'
+
+
+def cmd_of(how):
+    """the cmd-action: a string (run through the shell) or a list (direct child)"""
+    kind, arg, form = how.split(':')
+    script = ('kill -%d $$' % SIGNUM[arg]) if kind == 'sig' else ('exit %d' % int(arg))
+    return script if form == 'shell' else ['sh', '-c', script]
 
 
 def prepare(case):
@@ -139,6 +173,9 @@ def prepare(case):
                 if g[2] != 'v':
                     g[2] = 'v'
     for t in case['tasks']:
+        if t['kind'] != 'group' and is_cmd_how(t.get('how')) and t['outcome'] in ('failed', 'error'):
+            t['outcome'] = cmd_outcome(t['how'])
+    for t in case['tasks']:
         if t['kind'] == 'group':
             continue
         if t['outcome'] == 'saveerr' and t['status'] == 'utd' and not case.get('always'):
@@ -167,6 +204,9 @@ def gen_case(rng, runner='serial', **knobs):
     for t in c['tasks']:
         if t['kind'] != 'group' and t['status'] == 'run' and t['outcome'] == 'ok' and rng.random() < 0.09:
             t['outcome'] = 'saveerr'
+    for t in c['tasks']:
+        if t['kind'] != 'group' and t['outcome'] in ('failed', 'error') and rng.random() < 0.45:
+            t['how'] = rng.choice(CMD_HOWS[t['outcome']])
     # make sure something fails: most cases should exercise the property
     if not any(t['kind'] != 'group' and (t['outcome'] != 'ok' or t['status'] == 'error') for t in c['tasks']) \
             and rng.random() < 0.85:
@@ -175,6 +215,8 @@ def gen_case(rng, runner='serial', **knobs):
             v = rng.choice(cands)
             v['outcome'] = rng.choice(['failed', 'error', 'saveerr', 'failed'])
             v['how'] = rng.choice(['return', 'raise', 'object'])
+            if v['outcome'] != 'saveerr' and rng.random() < 0.5:
+                v['how'] = rng.choice(CMD_HOWS[v['outcome']])
     if pol and c['runner'] == 'thread':
         c['policy'] = runlib.gen_policy(rng, c['nproc'])
     c['backend'] = backend or rng.choice(BACKENDS)
@@ -199,12 +241,18 @@ def _make_action(rec, cell, n, t):
             with open(f, 'w') as fh:
                 fh.write('made by %d\n' % n)
         outcome, how = ('ok', 'return') if cell['phase'] != 'B' else (t['outcome'], t.get('how', 'return'))
+        cmd_fails = is_cmd_how(how) and outcome in ('failed', 'error')
+        if cmd_fails:
+            outcome = 'ok'          # the cmd-action that follows fails
         if outcome == 'saveerr':
             os.unlink(gone)
         rec[0].ev(['end', n, w])
         if outcome in ('ok', 'saveerr'):
             val = {'v': n}
-            val.update(res)
+            if not cmd_fails:
+                # (a task whose LATER action fails keeps the values of its earlier actions and would deliver them as
+                # calc results -- the reported `deliver` corner of the base model: nothing to deliver here)
+                val.update(res)
             return val
         from doit.exceptions import TaskFailed, TaskError
         if outcome == 'failed':
@@ -236,6 +284,9 @@ def build_namespace(case, rec, cell):
                     yield {'basename': t['name'], 'name': None, 'task_dep': list(t['task_dep'])}
                 continue
             d = {'actions': [_make_action(rec, cell, n, t)]}
+            if cell['phase'] == 'B' and is_cmd_how(t.get('how')) and t['outcome'] in ('failed', 'error'):
+                # run B only: the python-action (start/end marks, targets, values) is followed by the failing command
+                d['actions'].append(cmd_of(t['how']))
             if t['kind'] == 'sub':
                 d['basename'] = t['group']
                 d['name'] = t['name'].split(':', 1)[1]
@@ -509,7 +560,42 @@ def dep_closure(model, trace, t, fin, utd):
     return seen
 
 
+def truth_trace(case, obs):
+    """(trace', tasks): the trace with the `success` report of every task that was EXECUTED in run B and whose action
+    failed by construction (oracle outcome failed / error / saveerr) replaced by the failure report it should have been;
+    tasks = those tasks (empty on a tree that recognises every failure: then trace' == trace)"""
+    tr = obs['trace']
+    started = set(e[1] for e in tr if e[0] == 'start')
+    kind = {'failed': 'failed', 'error': 'error', 'saveerr': 'deperr'}
+    wrong = []
+    out = []
+    for e in tr:
+        if e[0] == 'success' and e[1] in started and 0 <= e[1] < len(case['tasks']) \
+                and case['tasks'][e[1]]['kind'] != 'group' and case['tasks'][e[1]]['outcome'] in kind:
+            wrong.append(e[1])
+            out.append(['failure', e[1], kind[case['tasks'][e[1]]['outcome']]])
+        else:
+            out.append(e)
+    return out, wrong
+
+
 def py_monitors(case, obs):
+    flags, wit = _py_monitors(case, obs)
+    for k in ('C05_failure_recognised', 'C05_truth_reexecuted') + tuple(TRUTH_LEAN_KEYS):
+        flags[k] = True
+    tt, wrong = truth_trace(case, obs)
+    if wrong:
+        flags['C05_failure_recognised'] = False
+        wit['failure_recognised'] = {'tasks_whose_action_failed_but_were_reported_successful': wrong}
+        f2, w2 = _py_monitors(case, dict(obs, trace=tt))
+        for k in ('no_dependent_runs', 'serial_stops', 'not_recorded', 'reexecuted'):
+            flags['C05_truth_' + k] = f2['C05_' + k]
+            if k in w2:
+                wit['truth_' + k] = w2[k]
+    return flags, wit
+
+
+def _py_monitors(case, obs):
     model = case['model']
     tr = obs['trace']
     n = model['n']
@@ -597,7 +683,16 @@ def model_request(case, obs):
     req['model'] = 'c05'
     if obs.get('recorded') is not None:
         req['recorded'] = obs['recorded']
+    tt, wrong = truth_trace(case, obs)
+    if wrong:
+        req['truthTrace'] = tt
     return req
+
+
+def lean_flags(ans):
+    d = dict(ans.get('monitor') or {})
+    d.update(ans.get('monitor_truth') or {})
+    return d
 
 
 def ask_model(pairs):
@@ -649,7 +744,7 @@ def judge(case, obs, ans, st, shrink_left):
     if ans is None or 'error' in ans:
         st.count('driver_unavailable')
     else:
-        lean = ans.get('monitor') or {}
+        lean = lean_flags(ans)
         if ans.get('skipped'):
             st.count('model_search_skipped')
         st.count('model:accepted' if ans.get('accepted') else 'model:rejected')
@@ -675,7 +770,7 @@ def judge(case, obs, ans, st, shrink_left):
             used = time.time() - t0
         o2 = run_phases(small)
         a2 = ask_model([(small, o2)])[0]
-        l2 = None if 'error' in a2 else a2.get('monitor')
+        l2 = None if 'error' in a2 else lean_flags(a2)
         bad2, p2, w2 = failing_keys(small, o2, l2)
         wit_ = make_witness(small, o2, bad2, p2, l2, w2) if (bad2 and case_ok(small, o2)) else wit0
         st.violation(wit_, 'monitor:' + ','.join(wit_['failed_monitors']),
@@ -683,7 +778,7 @@ def judge(case, obs, ans, st, shrink_left):
         st.count('violation_found')
         return used
     if lean is not None:
-        disagree = [k for k in LEAN_KEYS if py.get(k, True) != lean.get(k, True)]
+        disagree = [k for k in LEAN_KEYS + TRUTH_LEAN_KEYS if py.get(k, True) != lean.get(k, True)]
         if disagree:
             st.divergence(make_witness(case, obs, disagree, py, lean, wit),
                           'python and Lean monitors disagree on %s' % disagree)
@@ -815,7 +910,9 @@ def small_scope_cases():
     out = []
     kinds = ('task_dep', 'setup', 'calc_dep', 'file', 'getargs', 'result_dep', 'delivered')
     placements = [('failed', 'return'), ('failed', 'object'), ('error', 'raise'), ('error', 'object'),
-                  ('saveerr', 'return'), ('missing', 'return')]
+                  ('saveerr', 'return'), ('missing', 'return'),
+                  ('failed', 'cmd:1:shell'), ('error', 'cmd:127:list'), ('failed', 'sig:KILL:list'),
+                  ('failed', 'sig:TERM:shell'), ('failed', 'sig:SEGV:list')]
     for kind in kinds:
         for out_, how in placements:
             for mid in (None, 'run', 'utd'):
@@ -865,7 +962,8 @@ def explore_cases():
         x.update(kw)
         return x
     out = []
-    for out_, how in (('failed', 'return'), ('error', 'raise'), ('saveerr', 'return')):
+    for out_, how in (('failed', 'return'), ('error', 'raise'), ('saveerr', 'return'), ('failed', 'sig:KILL:list'),
+                      ('error', 'cmd:200:shell')):
         for cont in (True, False):
             for nproc in (2, 3):
                 out.append({'tasks': [t('f', outcome=out_, how=how), t('g'), t('d', task_dep=['f', 'g']),
@@ -905,7 +1003,7 @@ def plan(ctx, scale=1.0):
             small.append(x)
     ctx.extra['exhaustive_small_scope'] = {
         'cases': len(small), 'shape': 'failing task -> (direct | run intermediate | up-to-date intermediate) -> dependent, '
-        'edge kinds task_dep/setup/calc_dep/file/getargs/result_dep/delivered, 6 failure placements, + independent task',
+        'edge kinds task_dep/setup/calc_dep/file/getargs/result_dep/delivered, 11 failure placements (python-action, file_dep, cmd-action exit status, cmd-action killed by signal), + independent task',
         'combos': 'backend x warm x serial/thread(2) x --continue: %s' % ('3 per case (rotating)' if quick else 'all 24')}
     pool += [{'cases': small[i:i + size], 'shrink_s': 6.0} for i in range(0, len(small), size)]
     ex = explore_cases()
@@ -980,7 +1078,7 @@ def replay(ctx, data):
     nxt = obs.get('next') or {}
     print('next run      : exit=%s %s' % (nxt.get('exit'), runlib.render_trace(case, nxt.get('trace', []))))
     ans = ask_model([(case, obs)])[0]
-    lean = None if 'error' in ans else ans.get('monitor')
+    lean = None if 'error' in ans else lean_flags(ans)
     bad, py, wit = failing_keys(case, obs, lean)
     print('python monitors:', py)
     print('lean monitors  :', lean if lean is not None else ans)
